@@ -9,7 +9,7 @@ from xh import langs, mb
 PROP = 'C02'
 T0 = ['Am', 'G1', 'G2']
 T1 = ['G1', 'G2', 'O']
-DV = [None, 0.0, 0.3, 1.0]
+DV = [None, 0.0, 0.3, 1.0, 0.125]
 NAMES = ['a', 'a:1', 'a:2', 'b']
 PTYPES = ('Am', 'G1', 'G2')
 
@@ -129,7 +129,7 @@ def body_names(cube, **kw):
 
 
 def queries(tier):
-    ps = [I('t0', 0, 2), I('t1', 0, 2), I('dp', 0, 3), B('da'), B('l02'), B('l102'), B('l12')]
+    ps = [I('t0', 0, 2), I('t1', 0, 2), I('dp', 0, 4), B('da'), B('l02'), B('l102'), B('l12')]
     qs = [Query(name='attrs', body=body_attrs, params=ps, split=['t0', 't1'], timeout=500,
                 witnesses=[({}, {'t0': 1, 't1': 0, 'dp': 2, 'da': True, 'l02': True, 'l102': False, 'l12': True}),
                            ({}, {'t0': 0, 't1': 2, 'dp': 0, 'da': False, 'l02': False, 'l102': True, 'l12': True})],
